@@ -1117,23 +1117,17 @@ def _list_decorators() -> Dict[str, Callable[[_FN], _FN]]:
                 fn(self, index, value)
             else:
                 # slice assignment requires __delitem__, insert, __len__
-                step = index.step or 1
-                start = index.start or 0
-                if start < 0:
-                    start += len(self)
-                if index.stop is not None:
-                    stop = index.stop
-                else:
-                    stop = len(self)
-                if stop < 0:
-                    stop += len(self)
+                # slice.indices() clamps start / stop exactly as list does
+                # (out of range and negative values, negative steps) and
+                # raises ValueError for a zero step
+                start, stop, step = index.indices(len(self))
+                # as list does, accept any iterable and consume it before
+                # the collection is changed (also covers value is self)
+                value = list(value)
 
                 if step == 1:
-                    if value is self:
-                        return
-                    for i in range(start, stop, step):
-                        if len(self) > start:
-                            del self[start]
+                    for i in range(start, stop):
+                        del self[start]
 
                     for i, item in enumerate(value):
                         self.insert(i + start, item)
